@@ -639,6 +639,27 @@ func (w *World) ConnectVia(k int, src, dst netip.Addr) *RConn {
 	return rc
 }
 
+// ConnectRaw is ConnectVia with the addresses corebgp sees given as net.Addr
+// values (label only names the connection in the log).
+func (w *World) ConnectRaw(k int, label netip.Addr, src, dst net.Addr) *RConn {
+	lis := w.Lis
+	if k > 0 && k <= len(w.Extra) {
+		lis = w.Extra[k-1]
+	}
+	p := w.newPair(netip.AddrPortFrom(w.O.LocalAddr, 179), netip.AddrPortFrom(label, w.ephemeral()))
+	p.SetAddr(0, dst)
+	p.SetAddr(1, src)
+	rc := newRConn(w, p, "in", label)
+	w.mu.Lock()
+	w.conns = append(w.conns, rc)
+	w.mu.Unlock()
+	w.Log.Add("note", label.String(), rc.ID, "remote-connects", "raw src="+src.String()+" dst="+dst.String())
+	if lis == nil || !lis.Inject(p.End(0)) {
+		rc.Refused = true
+	}
+	return rc
+}
+
 // Conns returns all remote-side connections created so far.
 func (w *World) Conns() []*RConn {
 	w.mu.Lock()
